@@ -15,6 +15,7 @@ import NiftyVerif.Model.Expr
 import NiftyVerif.Props.C03Ptw
 import NiftyVerif.Props.C03Sinc
 import NiftyVerif.Lemmas.ExprCalc
+import NiftyVerif.Lemmas.ExprAdj
 
 set_option linter.unusedSimpArgs false
 namespace NiftyVerif.C03
@@ -117,6 +118,8 @@ theorem lin_val (e : Ex K) : ∀ (ρ : MVal K) (wm : Bool), (lin e ρ wm).val = 
   | quad d a iha => intro ρ wm; simp only [lin, eval, iha]
   | gauss data icov a iha => intro ρ wm; simp only [lin, eval, iha]
   | const en d v => intro ρ wm; rfl
+  | bil m na nb T a b iha ihb => intro ρ wm; simp only [lin, eval, iha, ihb]
+  | varcov n a b iha ihb => intro ρ wm; simp only [lin, eval, iha, ihb]
 end linval
 
 /-! ### the Jacobian is the true derivative -/
@@ -141,6 +144,8 @@ def Valid : Ex ℝ → MVal ℝ → Prop
   | .quad _ a, ρ => Valid a ρ
   | .gauss _ _ a, ρ => Valid a ρ
   | .const _ _ _, _ => True
+  | .bil _ _ _ _ a b, ρ => Valid a ρ ∧ Valid b ρ
+  | .varcov n a b, ρ => Valid a ρ ∧ Valid b ρ ∧ ∀ j, j < n → 0 < eval b ρ "" j
 
 /-- **Jacobian = true derivative.**  For every expression tree `e`, every differentiable curve `γ` in the input
     space (any multi-domain) with velocity `h` at `t = 0`, and every output entry `(k, i)`, the function
@@ -289,6 +294,38 @@ theorem lin_hasDerivAt (e : Ex ℝ) (wm : Bool) :
     intro γ h hγ hv k i
     simp only [eval, lin]
     exact hasDerivAt_const _ _
+  | bil m na nb T a b iha ihb =>
+    intro γ h hγ hv k o
+    simp only [eval, lin, single, lin_val]
+    by_cases hk : k = ""
+    · simp only [hk, if_true]
+      by_cases ho : o < m
+      · simp only [ho, if_true]
+        exact hasDerivAt_rsum na _ _ 0 (fun i => hasDerivAt_rsum nb _ _ 0 (fun j =>
+          ((iha γ h hγ hv.1 "" i).mul (ihb γ h hγ hv.2 "" j)).const_mul (ten T o i j)))
+      · simp only [ho, if_false]; exact hasDerivAt_const _ _
+    · simp only [hk, if_false]; exact hasDerivAt_const _ _
+  | varcov n a b iha ihb =>
+    intro γ h hγ hv k i
+    simp only [eval, lin, single, lin_val, log_eq]
+    by_cases hk : k = ""
+    · simp only [hk, if_true]
+      by_cases hi : i = 0
+      · simp only [hi, if_true]
+        have hb : ∀ j, j < n → eval b (γ 0) "" j ≠ 0 := fun j hj => (hv.2.2 j hj).ne'
+        have h1 := hasDerivAt_rsum n _ _ 0 (fun j =>
+          (iha γ h hγ hv.1 "" j).mul ((iha γ h hγ hv.1 "" j).mul (ihb γ h hγ hv.2.1 "" j)))
+        have h2 := hasDerivAt_rsum_lt n (fun j t => Real.log (eval b (γ t) "" j)) _ 0
+          (fun j hj => (ihb γ h hγ hv.2.1 "" j).log (hb j hj))
+        refine HasDerivAt.congr_deriv ((h1.sub h2).const_mul (0.5 : ℝ)) ?_
+        rw [← rsum_sub, ← rsum_mul_left]
+        refine rsum_congr n _ _ (fun j hj => ?_)
+        have := hb j hj
+        simp only [sci_half, Pi.mul_apply]
+        field_simp
+        ring
+      · simp only [hi, if_false]; exact hasDerivAt_const _ _
+    · simp only [hk, if_false]; exact hasDerivAt_const _ _
 
 /-! ### the metric is carried through -/
 
